@@ -10,6 +10,7 @@ import (
 
 	"verif/internal/h"
 
+	clt "github.com/tuneinsight/lattigo/v6/circuits/common/lintrans"
 	"github.com/tuneinsight/lattigo/v6/core/rlwe"
 	"github.com/tuneinsight/lattigo/v6/ring"
 	"github.com/tuneinsight/lattigo/v6/ring/ringqp"
@@ -247,6 +248,10 @@ func snapAny(v any) string {
 		return "[]bigcomplex:" + sb.String()
 	case []int:
 		return fmt.Sprintf("[]int:%v", v)
+	case clt.LinearTransformation:
+		return snapLT(v)
+	case bignum.Polynomial:
+		return snapBigPoly(v)
 	default:
 		return fmt.Sprintf("%T:%v", v, v)
 	}
